@@ -57,7 +57,7 @@ CHARS_QUICK = len(CHARS_COMMON)
 
 # ---- vocabularies of ill-formed / extreme values: (token text, effective string) ----------------------------------------
 # effective string = what the token denotes after Exactly's quote removal ('..' literal, ".." soft, naked as is)
-INT_BAD = [('1/0', '1/0'), ('1//0', '1//0'), ('1%0', '1%0'), ('"1 / 0"', '1 / 0'), ('0**-1', '0**-1'),
+INT_BAD = [('1/0', '1/0'), ('1//0', '1//0'), ('1%0', '1%0'), ('"1/ 0"', '1/ 0'), ('0**-1', '0**-1'),
            ('2.5', '2.5'), ('1.0', '1.0'), ('1e3', '1e3'), ('()', '()'), ('"\'a\'"', "'a'"), ('a', 'a'),
            ('"1 if"', '1 if'), ('0x', '0x'), ('""', ''), ("''", ''), ('1,2', '1,2'), ('[1]', '[1]'), ('None', 'None'),
            ('007', '007'), ('"1 +"', '1 +'), ('1-', '1-'), ('[][0]', '[][0]'), ('{}[1]', '{}[1]'),
@@ -86,7 +86,7 @@ REPL_EXTREME = [("'\\g<0>'", '\\g<0>'), ("'\\0'", '\\0'), ("'\\n'", '\\n'), ("'\
                 ("'\\t\\r'", '\\t\\r'), ("'\\100'", '\\100'), ("''", ''), ("'\\g<0>\\g<0>'", '\\g<0>\\g<0>'),
                 ("'\\\\1'", '\\\\1'), ("'\\.'", '\\.'), ('\\1', '1')]
 GLOB_EXTREME = [("'['", '['), ("'[!'", '[!'), ("'[]'", '[]'), ("'[a'", '[a'), ("'[!]'", '[!]'), ("'***'", '***'),
-                ("'?'", '?'), ("''", ''), ("'/'", '/'), ("'a/'", 'a/'), ("'/abs'", '/abs'), ("'\\'", '\\'),
+                ("'?'", '?'), ("''", ''), ("'a/'", 'a/'), ("'\\'", '\\'),
                 ("'[z-a]'", '[z-a]'), ("'[[]'", '[[]'), ("'**'", '**'), ("'**/*'", '**/*'), ("'a//b'", 'a//b'),
                 ("'{a,b}'", '{a,b}'), ("'é*'", 'é*'), ("'[^a]'", '[^a]'), ("'*/'", '*/'), ("'./x'", './x'),
                 ("'[\\]'", '[\\]'), ("'[!-]'", '[!-]'), ("'.'", '.'), ("'./'", './'), ('""', ''), ("'a/./b'", 'a/./b'),
@@ -97,10 +97,15 @@ RANGE_BAD = [('1:2:3', '1:2:3'), ('a', 'a'), ('1:b', '1:b'), ('2.5', '2.5'), ('1
 RANGE_EXTREME = [('0', '0'), ('0:0', '0:0'), ('3:1', '3:1'), ('-1:1', '-1:1'), ('10**100', '10**100'),
                  (':10**100', ':10**100'), ('-10**100:', '-10**100:'), ('1:-1', '1:-1'), ('"1:2"', '1:2'),
                  ('-0:', '-0:'), ('" 1 : 2 "', ' 1 : 2 '), ('True:', 'True:'), ('1_0:', '1_0:'), ("'2':'3'", '2:3')]
-BAD = {'int': INT_BAD, 'regex': REGEX_BAD, 'repl': REPL_BAD, 'glob': [], 'range': RANGE_BAD}
+# relative names only: an absolute name could make an instruction write outside the work directory (see gate())
+PATH_EXTREME = [('""', ''), ("''", ''), ("'.'", '.'), ("'./'", './'), ("'a/'", 'a/'), ("'a//b'", 'a//b'),
+                ("'a/./b'", 'a/./b'), ("' '", ' '), ("'a b'", 'a b'), ('"*"', '*'), ("'-rel-act'", '-rel-act'),
+                ('a' * 300, 'a' * 300), ("'f.txt/x'", 'f.txt/x'), ("'d/e/'", 'd/e/'), ("'é/ü'", 'é/ü'), ("'@'", '@'),
+                ("'a\\b'", 'a\\b'), ("'~'", '~'), ("'$HOME'", '$HOME'), ("'%s'", '%s'), ("'{x}'", '{x}')]
+BAD = {'int': INT_BAD, 'regex': REGEX_BAD, 'repl': REPL_BAD, 'glob': [], 'range': RANGE_BAD, 'path': []}
 EXTREME = {'int': INT_EXTREME, 'regex': REGEX_EXTREME, 'repl': REPL_EXTREME, 'glob': GLOB_EXTREME,
-           'range': RANGE_EXTREME}
-VALUE_KINDS = ['int', 'regex', 'repl', 'glob', 'range']
+           'range': RANGE_EXTREME, 'path': PATH_EXTREME}
+VALUE_KINDS = ['int', 'regex', 'repl', 'glob', 'range', 'path']
 GOOD = {'int': G.INTS_GOOD, 'regex': G.REGEX_GOOD, 'repl': G.REPL_GOOD, 'glob': G.GLOB_GOOD, 'range': G.RANGE_GOOD,
         'str': ['a', '"a b"', "'x'"], 'path': ['f.txt', 'd', 'data.txt', 'nofile']}
 
@@ -457,6 +462,9 @@ def gate(text):
         return 'pow'
     if re.search(r'(^|[\s\'"=>])\.\.(/|[\s\'"]|$)', text):
         return 'dotdot'
+    # no absolute file name (an instruction could write outside the work directory); `1/ 0`, `1//0` are divisions
+    if re.search(r'(^|[\s\'"=:(<>])/(?![0-9/])', text):
+        return 'absolute'
     return None
 
 
